@@ -186,13 +186,15 @@ SumLen(rs) == LET S[i \in 0..Len(rs)] == IF i = 0 THEN 0 ELSE S[i - 1] + rs[i].l
 (* wal.go:926 Save *)
 Save(hk, sizes, rw) ==
   LET n == Len(sizes)
-      tm == IF hk \in {"term", "tc"} THEN lastTerm + 1 ELSE lastTerm
+      tm == IF hk \in {"term", "tc", "term0"} THEN lastTerm + 1 ELSE lastTerm
       first == IF rw THEN lastIdx ELSE lastIdx + 1
       newLast == IF n > 0 THEN first + n - 1 ELSE lastIdx
       st == CASE hk = "none" -> EmptyHS
                [] hk = "commit" -> <<wstate[1], wstate[2], newLast>>
                [] hk = "term" -> <<tm, 1, Min(commit, newLast)>>
                [] hk = "tc" -> <<tm, 1, newLast>>          \* new term and everything committed (one Ready)
+               [] hk = "term0" -> <<tm, 0, Min(commit, newLast)>>   \* a new term learned without voting in it
+               [] hk = "vote" -> <<wstate[1], 2, wstate[3]>>       \* the vote of the current term granted: NOTHING else changes
       mustSync == n # 0 \/ (st # EmptyHS /\ (st[1] # wstate[1] \/ st[2] # wstate[2]))
       recs == EncodeSave(sizes, first, tm, st, Len(log), woff, chain, TailSeg, Len(ops) + 1)
       total == SumLen(recs)
@@ -203,6 +205,8 @@ Save(hk, sizes, rw) ==
      /\ (hk = "commit" => wstate # EmptyHS)
      /\ (rw => WithRewrite /\ hk = "term" /\ n >= 1 /\ lastIdx > commit /\ lastIdx >= 1)
      /\ (hk = "tc" => n >= 1)
+     /\ (hk = "term0" => n = 0 /\ ~rw)
+     /\ (hk = "vote" => n = 0 /\ ~rw /\ wstate # EmptyHS /\ wstate[2] = 0)
      /\ log' = log \o recs
      /\ woff' = woff + total
      /\ chain' = Len(log) + Len(recs)           \* every record of a save has Data
@@ -552,7 +556,7 @@ Corrupt(s, x, kind) ==
                  cutp, lastcut, ops, crash1, app, crash2, rec2, stale>>
 
 SaveChoices ==
-  {<<hk, sizes, rw>> : hk \in {"none", "commit", "term", "tc"}, sizes \in SeqsUpTo(EntSizes, MaxEnts), rw \in BOOLEAN}
+  {<<hk, sizes, rw>> : hk \in {"none", "commit", "term", "tc", "term0", "vote"}, sizes \in SeqsUpTo(EntSizes, MaxEnts), rw \in BOOLEAN}
 
 Next ==
   \/ \E ch \in SaveChoices : Save(ch[1], ch[2], ch[3])
